@@ -33,6 +33,18 @@ pub assume_specification<T, U, D: FnOnce() -> U, F: FnOnce(T) -> U> [Option::<T>
 #[verifier::external_body]
 fn vpanic() -> ! { panic!() }
 
+// E4b (option `safeindex`): the bounds check of safe indexing. `X[e]` on a Vec / slice panics when `e >= X.len()` (language-
+// defined); the extractor writes `X[vx_idx(e, X.len())]`, and this VERIFIED helper diverges exactly in that case, so an
+// out-of-range index is an allowed outcome (a panic) instead of a precondition of the enclosing function.
+fn vx_idx(i: usize, n: usize) -> (r: usize)
+    ensures
+        r == i,
+        i < n,
+{
+    if i >= n { vpanic(); }
+    i
+}
+
 // E4: `.expect(msg)` / `.unwrap()` are documented panics; `vexpect()` diverges on None / Err
 trait VExpect<T>: Sized {
     spec fn vx_ok(self) -> bool;
